@@ -270,6 +270,11 @@ impl<TStdlib: Stdlib, TStdIn: Input, TStdOut: Printer, TLpt1: Printer> Interpret
                     }
                     self.last_error_code = Some(e.err().get_code());
                     match ctx.error_handler {
+                        ErrorHandler::Address(_) if self.last_error_address.is_some() => {
+                            // an error inside the error handler (before its RESUME) is not
+                            // trapped again: the handler would be entered forever
+                            return Err(e.with_stacktrace(&mut self.stacktrace));
+                        }
                         ErrorHandler::Address(handler_address) => {
                             // the labels of the handler must not cut the stacks of the interrupted code
                             self.push_nesting_base(NestingKind::Handler);
